@@ -105,9 +105,9 @@ PROPS = {
     },
     "C55": {
         "title": "writeq and print quote and space exactly as ISO requires",
-        "v_units": [], "k_groups": ["quoting"],
-        "replay": None,
-        "level": "other",
-        "explanation": "bounded: Kani/CBMC over atoms of at most 4 characters (every ASCII character per position; the Unicode-wide variant exceeded CBMC's reach); the quoting decision is compared with a specification written from the property statement; longer atoms only repeat the per-character tail test",
+        "v_units": ["quoting"], "k_groups": ["quoting"],
+        "replay": "quoting",
+        "level": "proof",
+        "explanation": "Verus: the quoting decision (non_quoted_token, non_quoted_graphic_token), the per-character escapes (char_to_string) and the atom writer print_op_addendum are proved, for atoms of every length over all of Unicode (class predicates uninterpreted), against a specification written from the property statement; Kani re-checks the escapes on the real String code and (thorough tier, bounded: atoms of at most 4 ASCII characters) the decision with std's real Unicode tables",
     },
 }
